@@ -273,11 +273,18 @@ class Run(object):
                         m.on_offer(self, ev, info, a, rec)
                     self.trace.append(("offer", tid, route, item, att, t.get("delay")))
                     total += 1
+                started_now = {}
                 for a in t["actions"]:
                     item = a.get("item_id")
                     chain = ("requested", "scheduled", "running") if self.ack_chain is True else ("running",)
                     if self.ack_chain == "lazy":
                         chain = ("scheduled",)  # the action is queued at the provider; it reports running later
+                    elif self.ack_chain == "mixed":
+                        # some actions start at once, others sit requested / scheduled / delayed at the provider: executions
+                        # of one task on different routes (or items of one task) are then active with different statuses
+                        chain = (("running",), ("scheduled",), ("requested",), ("requested", "scheduled"), ("delayed",),
+                                 ("running",))[h64(tid, route, item, self.step) % 6]
+                    started_now[item] = chain[-1] == "running"
                     for s in chain:
                         evx = (events.TaskItemActionExecutionEvent(item, s) if item is not None
                                else events.ActionExecutionEvent(s))
@@ -286,6 +293,8 @@ class Run(object):
                             self.trace.append(("ack-EXC", tid, route, item, repr(ea["exc"])[:200]))
                 for r in self.offers[-len(t["actions"]):] if t["actions"] else []:
                     self.inflight.append({k: r[k] for k in ("task", "route", "item", "attempt", "loop", "uid")})
+                    if self.ack_chain == "mixed" and started_now.get(r["item"]):
+                        self.inflight[-1]["started"] = True
             if not again:
                 break
         self._log_op(["poll"], extra=[[o["task"], o["route"], o["item"], o.get("delay"), o.get("input"), o.get("ctx")]
@@ -306,7 +315,7 @@ class Run(object):
         """report completion of in-flight action i (outcome from the outcome function unless given)"""
         self.step += 1
         a = self.inflight[i]
-        if self.ack_chain == "lazy" and not a.get("started"):
+        if self.ack_chain in ("lazy", "mixed") and not a.get("started"):
             a["started"] = True
             evs = (events.TaskItemActionExecutionEvent(a["item"], "running") if a["item"] is not None
                    else events.ActionExecutionEvent("running"))
